@@ -308,10 +308,10 @@ def run_job(job):
     try:
         with contextlib.redirect_stdout(buf), contextlib.redirect_stderr(buf):
             if job["cc"] == "WOR":
-                out = run_world(opts, "v_WOR_%s" % job["preset"])
+                out = run_world(opts, "v%d_WOR_%s" % (os.getpid(), job["preset"]))
             else:
                 out = ScenarioRunnerNoTrade().run_model_no_trade(
-                    title="v_%s_%s" % (job["cc"], job["preset"]), create_pptx_with_all_countries=False, scenario_option=opts,
+                    title="v%d_%s_%s" % (os.getpid(), job["cc"], job["preset"]), create_pptx_with_all_countries=False, scenario_option=opts,
                     countries_list=[job["cc"]], return_results=True)
         rec["ok"] = True
         rec["returned"] = dict(world=None if out[0] is None else "obj", net_pop=fl(out[1]), net_pop_fed=fl(out[2]),
